@@ -160,6 +160,11 @@ type RecFS struct {
 	mu     sync.Mutex
 	files  Files
 	Events []Event
+	// Limit, if > 0, makes Open panic with a "recfs:" message when one name is
+	// opened more than Limit times: a loader that recurses without bound is
+	// stopped at once instead of overflowing the stack.
+	Limit int
+	count map[string]int
 }
 
 // NewRecFS returns a recording file system over files.
@@ -177,6 +182,18 @@ func (r *RecFS) log(op, name string, err error) {
 
 // Open implements fs.FS.
 func (r *RecFS) Open(name string) (fs.File, error) {
+	if r.Limit > 0 {
+		r.mu.Lock()
+		if r.count == nil {
+			r.count = map[string]int{}
+		}
+		r.count[name]++
+		n := r.count[name]
+		r.mu.Unlock()
+		if n > r.Limit {
+			panic(fmt.Sprintf("recfs: %q opened %d times in one build", name, n))
+		}
+	}
 	if !fs.ValidPath(name) {
 		err := &fs.PathError{Op: "open", Path: name, Err: fs.ErrInvalid}
 		r.log("open", name, err)
